@@ -5,6 +5,7 @@
   correspondence ops of Drv/C01.lean (harness/props/c01.py).
 -/
 import Ladybug.Proofs.C01Lemmas
+import Ladybug.Proofs.C01Header
 import Ladybug.Props.C08
 
 namespace Epw
@@ -155,10 +156,6 @@ theorem parseRow_ok {Tok Val : Type} (c : Codec Tok Val) (nf : Nat) (row : List 
     year's length (8760 or 8784 rows, or any `N`), then writing what the import stored (the parsed table,
     transposed into columns, point-in-time columns rotated) yields exactly the same rows in the same
     order, each cell printed from its parsed value – no cell moved, dropped or duplicated, for any flags. -/
-/- `importBody` (Model/Epw.lean) is by definition this composition: the non-blank lines parsed row by row
-   with `mapE (parseRow c nf)`, the table transposed with `transp nf`, the flagged columns rotated with
-   `onFlagged flag rot`, accepted when the row count is `hoursInYear leap`; the theorems are stated on the
-   composition (an unfolding lemma for the nested `match`/`if` of `importBody` was not finished). -/
 theorem C01_write_read_canon {Tok Val : Type} (c : Codec Tok Val) (flag : Nat → Bool) (leap : Bool) (nf : Nat)
     (rows : List (List Tok)) (tbl : List (List Val))
     (hp : mapE (parseRow c nf) rows = .ok tbl) (hN : tbl.length = hoursInYear leap) :
@@ -253,9 +250,294 @@ theorem C01_write_fixed_point {Tok Val : Type} (c : Codec Tok Val) (hc : c.Lawfu
     (fun a b hab => (parseRow_ok c nf a b hab).2) (hre rows tbl hp)
   rw [h2, h1]
 
+/-- **What `importBody` stores** is exactly the composition the round-trip theorems are stated on: the
+    non-blank lines parsed row by row, transposed into `nf` columns, flagged columns rotated; `nf` is the
+    width of the first line capped at 35, the leap flag the header's or the 8784-line test, and (for
+    `nf > 0`) the row count is the year's. -/
+theorem C01_importBody_spec {Tok Val : Type} (c : Codec Tok Val) (flag : Nat → Bool) (lh : Option Bool)
+    (lines : List (Option (List Tok))) (b : Body Val) (h : importBody c flag lh lines = .ok b) :
+    ∃ l0 tbl, lines.head? = some l0 ∧ b.nf = nfOfFirst l0 ∧ b.leap = leapOf lh lines.length ∧
+      mapE (parseRow c b.nf) (lines.filterMap id) = .ok tbl ∧
+      b.cols = onFlagged flag rot (transp b.nf tbl) ∧ (b.nf = 0 ∨ tbl.length = hoursInYear b.leap) := by
+  unfold importBody at h
+  split at h
+  · cases h
+  · rename_i l0 rest
+    split at h
+    · cases h
+    · rename_i tbl htbl
+      split at h
+      · cases h
+      · split at h
+        · rename_i hcond
+          cases h
+          exact ⟨l0, tbl, rfl, rfl, rfl, htbl, rfl, hcond⟩
+        · cases h
+
+/-- **read then write, on `importBody` itself**: whatever `importBody` accepts (with at least one field)
+    is written back as the canonical form of the non-blank lines, row for row. -/
+theorem C01_importBody_write {Tok Val : Type} (c : Codec Tok Val) (flag : Nat → Bool) (lh : Option Bool)
+    (lines : List (Option (List Tok))) (b : Body Val) (h : importBody c flag lh lines = .ok b)
+    (hnf : 0 < b.nf) :
+    (writeBody c flag b.leap b.cols).1 = .ok ((lines.filterMap id).map (canonRow c b.nf)) ∧
+    (writeBody c flag b.leap b.cols).2 = b.cols := by
+  obtain ⟨l0, tbl, _, _, _, hp, hcols, hlen⟩ := C01_importBody_spec c flag lh lines b h
+  have hN : tbl.length = hoursInYear b.leap := by
+    rcases hlen with h0 | h1
+    · omega
+    · exact h1
+  refine ⟨?_, C01_writeBody_restores c flag b.leap b.cols⟩
+  rw [hcols]
+  exact C01_write_read_canon c flag b.leap b.nf _ tbl hp hN
+
+/-- **read ∘ write ∘ read = read, on `importBody` itself**: importing the rows that were written from an
+    imported body (with the leap flag the written header carries) gives the identical body – the same field
+    count, leap flag and all columns, value for value.  Needs the codec law `parse (str v) = v`. -/
+theorem C01_read_write_read {Tok Val : Type} (c : Codec Tok Val) (hc : c.Lawful) (flag : Nat → Bool)
+    (lh : Option Bool) (lines : List (Option (List Tok))) (b : Body Val)
+    (h : importBody c flag lh lines = .ok b) (hnf : 0 < b.nf) :
+    importBody c flag (some b.leap) (((lines.filterMap id).map (canonRow c b.nf)).map some) = .ok b := by
+  obtain ⟨l0, tbl, hhead, hnfeq, _, hp, hcols, hlen⟩ := C01_importBody_spec c flag lh lines b h
+  have hN : tbl.length = hoursInYear b.leap := by
+    rcases hlen with h0 | h1
+    · omega
+    · exact h1
+  have hre := (C01_write_fixed_point c hc flag b.leap b.nf _ tbl hp hN).1
+  have hrows : (lines.filterMap id).length = tbl.length := (mapE_length hp).symm
+  have hpos : 0 < hoursInYear b.leap := by cases b.leap <;> decide
+  have hle : b.nf ≤ 35 := by
+    rw [hnfeq]; unfold nfOfFirst; cases l0 <;> simp <;> omega
+  -- the first written row
+  cases hrs : lines.filterMap id with
+  | nil => rw [hrs] at hrows; simp at hrows; omega
+  | cons r0 rs =>
+    rw [hrs] at hre hp
+    -- its width is the field count
+    have hw0 : (canonRow c b.nf r0).length = b.nf := by
+      simp only [mapE] at hp
+      split at hp
+      · cases hp
+      · rename_i v hv
+        obtain ⟨hl, hcan⟩ := parseRow_ok c b.nf r0 v hv
+        rw [hcan]; simp [hl]
+    have hfm : ∀ (l : List (List Tok)), (l.map some).filterMap id = l := by
+      intro l; induction l with
+      | nil => rfl
+      | cons a l ih => simp [ih]
+    unfold importBody
+    simp only [List.map_cons]
+    have hnf0 : nfOfFirst (some (canonRow c b.nf r0)) = b.nf := by
+      unfold nfOfFirst; simp only [hw0]; omega
+    have hfm' : (some (canonRow c b.nf r0) :: (rs.map (canonRow c b.nf)).map some).filterMap id =
+        canonRow c b.nf r0 :: rs.map (canonRow c b.nf) := by
+      have := hfm (canonRow c b.nf r0 :: rs.map (canonRow c b.nf))
+      simpa using this
+    simp only [hnf0, hfm']
+    simp only [List.map_cons] at hre
+    rw [hre]
+    have hne : tbl.isEmpty = false := by
+      cases tbl with
+      | nil => simp at hN; omega
+      | cons _ _ => rfl
+    simp only [hne, Bool.false_and, Bool.false_eq_true, if_false, leapOf, hN, or_true, if_true]
+    cases b
+    simp_all
+
 /-- Non-vacuity of the row-level ingredients (a row with a surplus cell: only the first `nf` are kept). -/
 example : parseRow (⟨fun _ t => some (t + 100), fun v => v - 100⟩ : Codec Nat Nat) 2 [5, 6, 7] = .ok [105, 106] ∧
     canonRow (⟨fun _ t => some (t + 100), fun v => v - 100⟩ : Codec Nat Nat) 2 [5, 6, 7] = [5, 6] := by decide
+
+/-! ### Header: parse ∘ regenerate -/
+
+/-- Line 1 as `header` writes it back unchanged: a city without `\\` or `/` (they are replaced by blanks on
+    import), latitude / longitude present (the empty token is stored as the int 0 and written "0"), and
+    number tokens that `float` reads back (codec law, stated for the tokens of this line), within the
+    ranges `Location` asserts. -/
+structure Loc.Canonical {F : Type} (nc : NumCodec F) (l : Loc F) : Prop where
+  city : replaceSep l.city = l.city
+  lat : ∃ a, l.lat = some a ∧ nc.sf a ≠ "" ∧ nc.pf (nc.sf a) = some a ∧ nc.within a (-90) 90 = true
+  lon : ∃ a, l.lon = some a ∧ nc.sf a ≠ "" ∧ nc.pf (nc.sf a) = some a ∧ nc.within a (-180) 180 = true
+  tz : nc.pf (nc.sf l.tz) = some l.tz ∧ nc.within l.tz (-12) 14 = true
+  elev : nc.pf (nc.sf l.elev) = some l.elev
+
+/-- **Line 1 (location).** -/
+theorem C01_header_location {F : Type} (nc : NumCodec F) (l : Loc F) (hl : l.Canonical nc) :
+    parseLoc nc (renderLoc nc l) = .ok l := by
+  obtain ⟨city, state, country, source, station, lat, lon, tz, elev⟩ := l
+  obtain ⟨hc, ⟨a, ha, ha1, ha2, ha3⟩, ⟨b, hb, hb1, hb2, hb3⟩, ⟨ht1, ht2⟩, he⟩ := hl
+  simp only at hc ha hb ht1 ht2 he
+  subst ha hb
+  simp [parseLoc, renderLoc, showOptNum, parseOptNum, optWithin, ha1, ha2, ha3, hb1, hb2, hb3, ht1, ht2, he, hc]
+
+/-- **Line 2 (design conditions), both key layouts and the absent case.**  Side condition: the three
+    dictionaries are all absent, or all complete in the file's key order (`Design.Canonical`). -/
+theorem C01_header_design {F : Type} (nc : NumCodec F) (h1 : nc.pi "1" = some 1) (h0 : nc.pi "0" = some 0)
+    (d : Design) (hd : d.Canonical) : ∃ t, renderDesign d = .ok t ∧ parseDesign nc t = .ok d :=
+  design_roundtrip nc h1 h0 d hd
+
+/-- **Line 3 (typical / extreme weeks)**: any number of hot (`Max`), cold (`Min`) and typical weeks with
+    distinct names, typical ones in sorted order (the order `header` writes). -/
+theorem C01_header_weeks {F : Type} (nc : NumCodec F) (w : Weeks) (hw : w.Canonical nc) :
+    parseWeeks nc (renderWeeks nc w) = .ok w := weeks_roundtrip nc w hw
+
+/-- **Line 4 (ground temperatures)**: any number of distinct depths in increasing order.  Side condition
+    (`GroundOk`): every monthly value is one that `'%.2f'` prints without loss. -/
+theorem C01_header_ground {F : Type} [DecidableEq F] (nc : NumCodec F) (lt : F → F → Bool) (gs : List (Ground F))
+    (hg : GroundCanonical nc lt gs) : parseGround nc (renderGround nc lt gs) = .ok gs :=
+  ground_roundtrip nc lt gs hg
+
+/-- **Line 5 (leap flag, daylight-saving fields).**  Side condition: the leap flag is known (the code's
+    `None`, left by a header whose field is neither Yes nor No, is written "No"). -/
+theorem C01_header_leap (b : Bool) (ds de : String) :
+    parseLeap (renderLeap (some b) ds de) = .ok (some b, ds, de) := by
+  have e1 : ("Yes" == "Yes") = true := by decide
+  have e2 : ("No" == "Yes") = false := by decide
+  have e3 : ("No" == "No") = true := by decide
+  cases b <;> simp [parseLeap, renderLeap, e1, e2, e3]
+
+/-- **Lines 6, 7 (comments, commas included: the tokens after the tag).** -/
+theorem C01_header_comments (tag : String) (c : List String) (hc : c ≠ []) : parseComments (tag :: c) = c := by
+  simp [parseComments, hc]
+
+/-- A header that `EPW.header` regenerates without loss. -/
+structure Hdr.Canonical {F : Type} (nc : NumCodec F) (lt : F → F → Bool) (h : Hdr F) : Prop where
+  loc : h.loc.Canonical nc
+  des : h.des.Canonical
+  weeks : h.weeks.Canonical nc
+  ground : GroundCanonical nc lt h.ground
+  leap : h.leap ≠ none
+  c1 : h.comments1 ≠ []
+  c2 : h.comments2 ≠ []
+  one : nc.pi "1" = some 1
+  zero : nc.pi "0" = some 0
+
+/-- **Header round trip: `parseHeader (renderHeader h) = h`** for the eight lines – location, design
+    conditions (2009 layout, 2021 layout, absent), 0..n typical / extreme weeks, 0..n ground depths, leap
+    flag and daylight-saving fields, both comment lines with commas, data periods (constant, not parsed) –
+    at token level (`split(',')` / `','.join` are the trusted base), numbers being opaque tokens whose
+    codec laws are required only for the tokens that occur.  The side conditions are exactly
+    `Hdr.Canonical`; outside them the code loses information (see the two counterexamples). -/
+theorem C01_header_roundtrip {F : Type} [DecidableEq F] (nc : NumCodec F) (lt : F → F → Bool) (h : Hdr F)
+    (hc : h.Canonical nc lt) :
+    ∃ ls, renderHeader nc lt h = .ok ls ∧ ls.length = 8 ∧ parseHeader nc ls = .ok h := by
+  obtain ⟨t, ht1, ht2⟩ := design_roundtrip nc hc.one hc.zero h.des hc.des
+  refine ⟨[renderLoc nc h.loc, t, renderWeeks nc h.weeks, renderGround nc lt h.ground,
+    renderLeap h.leap h.dstStart h.dstEnd, "COMMENTS 1" :: h.comments1, "COMMENTS 2" :: h.comments2, dataPeriods],
+    by simp only [renderHeader, ht1], rfl, ?_⟩
+  obtain ⟨b, hb⟩ : ∃ b, h.leap = some b := by
+    cases hl : h.leap with
+    | none => exact absurd hl hc.leap
+    | some b => exact ⟨b, rfl⟩
+  simp only [parseHeader, C01_header_location nc h.loc hc.loc, ht2, weeks_roundtrip nc h.weeks hc.weeks,
+    ground_roundtrip nc lt h.ground hc.ground, hb, C01_header_leap, C01_header_comments _ _ hc.c1,
+    C01_header_comments _ _ hc.c2]
+  cases h
+  simp_all
+
+/-- Regenerating twice gives the same lines: the header text is a fixed point. -/
+theorem C01_header_fixed_point {F : Type} [DecidableEq F] (nc : NumCodec F) (lt : F → F → Bool) (h : Hdr F)
+    (hc : h.Canonical nc lt) :
+    ∃ ls, renderHeader nc lt h = .ok ls ∧ ∃ h', parseHeader nc ls = .ok h' ∧ renderHeader nc lt h' = .ok ls := by
+  obtain ⟨ls, h1, _, h2⟩ := C01_header_roundtrip nc lt h hc
+  exact ⟨ls, h1, h, h2, h1⟩
+
+/-- Non-vacuity of `C01_header_roundtrip`: a concrete header in the driver's decimal codec (2009 design
+    conditions, four weeks incl. a year-wrapping one, two ground depths, comments with a comma) satisfies
+    every side condition; all codec facts are evaluated in the kernel. -/
+def exampleHdr : Hdr (Bool × Nat × Int) where
+  loc := ⟨"Chicago Ohare Intl Ap", "IL", "USA", "TMY3", "725300", some (false, 4198, -2), some (true, 8792, -2),
+          (true, 6, 0), (false, 201, 0)⟩
+  des := ⟨true, Gen.DD.heatingKeys.zip (List.replicate 15 "-20.1"), Gen.DD.coolingKeys.zip (List.replicate 32 "7"),
+          Gen.DD.extremeKeys.zip (List.replicate 16 "x")⟩
+  weeks := ⟨[("Summer - Week Nearest Max Temperature For Period", ⟨7, 13, 7, 19⟩)],
+            [("Winter - Week Nearest Min Temperature For Period", ⟨12, 29, 1, 4⟩)],
+            [("Autumn - Week Nearest Average Temperature For Period", ⟨10, 20, 10, 26⟩),
+             ("Spring - Week Nearest Average Temperature For Period", ⟨4, 19, 4, 25⟩)]⟩
+  ground := [⟨(false, 5, -1), "", "", "", List.replicate 12 (true, 189, -2)⟩,
+             ⟨(false, 2, 0), "1.2", "", "", List.replicate 12 (false, 172, -1)⟩]
+  leap := some false
+  dstStart := "0"
+  dstEnd := "0"
+  comments1 := ["Custom/User Format -- WMO#725300; NREL TMY Data Set (2008)", " with a comma"]
+  comments2 := [""]
+
+theorem exampleHdr_canonical : exampleHdr.Canonical decNum decLt where
+  loc := ⟨by decide +kernel, ⟨_, rfl, by decide +kernel, by decide +kernel, by decide +kernel⟩,
+          ⟨_, rfl, by decide +kernel, by decide +kernel, by decide +kernel⟩,
+          ⟨by decide +kernel, by decide +kernel⟩, by decide +kernel⟩
+  des := Or.inr (Or.inl ⟨_, _, _, by decide, by decide, by decide, rfl⟩)
+  weeks := ⟨by decide +kernel, by decide +kernel, by decide +kernel, by decide +kernel, by decide +kernel,
+            by decide +kernel, by decide +kernel, by decide +kernel, by decide +kernel⟩
+  ground := ⟨by decide +kernel, by decide +kernel, by decide +kernel, by decide +kernel, by decide +kernel⟩
+  leap := by decide
+  c1 := by decide
+  c2 := by decide
+  one := by decide +kernel
+  zero := by decide +kernel
+
+example : ∃ ls, renderHeader decNum decLt exampleHdr = .ok ls ∧ ls.length = 8 ∧ parseHeader decNum ls = .ok exampleHdr :=
+  C01_header_roundtrip decNum decLt exampleHdr exampleHdr_canonical
+
+/-- **Counterexample (recorded finding C01-ground-temperatures-two-decimals).**  In the decimal codec the
+    driver runs, the ground temperature 3.50826 (tokyo.epw has 3.50826038494622) is written "3.51" and
+    read back as 3.51: the side condition of `GroundOk` fails and so does the round trip. -/
+theorem C01_header_ground_counterexample :
+    let g : Ground (Bool × Nat × Int) := ⟨(false, 5, -1), "", "", "", List.replicate 12 (false, 350826, -5)⟩
+    renderGround decNum decLt [g] = ["GROUND TEMPERATURES", "1", "0.5", "", "", ""] ++ List.replicate 12 "3.51" ∧
+    parseGround decNum (renderGround decNum decLt [g]) =
+      .ok [⟨(false, 5, -1), "", "", "", List.replicate 12 (false, 351, -2)⟩] ∧
+    ¬ GroundOk decNum g := by
+  refine ⟨by decide +kernel, by decide +kernel, ?_⟩
+  intro h
+  have := h.2.2 (false, 350826, -5) (by decide)
+  revert this
+  decide +kernel
+
+/-- **Counterexample (recorded finding C01-design-conditions-dropped-when-incomplete).**  With a heating
+    dictionary but no cooling / extreme dictionaries (mannheim.epw), `header` writes `DESIGN CONDITIONS,0`
+    and the heating dictionary is gone after re-reading. -/
+theorem C01_header_design_counterexample :
+    let d : Design := ⟨false, Gen.DD.heatingKeys.zip (List.replicate 16 "1.0"), [], []⟩
+    renderDesign d = .ok ["DESIGN CONDITIONS", "0"] ∧
+    parseDesign decNum ["DESIGN CONDITIONS", "0"] = .ok ⟨false, [], [], []⟩ ∧ d ≠ ⟨false, [], [], []⟩ := by
+  decide +kernel
+
+/-! ### Dictionary -/
+
+/-- **`from_dict (to_dict e) = e`** (data part) for a loaded 35-field EPW whose collections have the year's
+    length: same unit flag, leap flag and the same columns in the same order, with both lazy flags set. -/
+theorem C01_dict_roundtrip {Val : Type} (s : St Val) (b : Bool) (hl : s.leap = some b)
+    (h35 : s.cols.length = 35) (hlen : ∀ c ∈ s.cols, c.length = hoursInYear b) :
+    s.toDict.fromDict = .ok { s with hdrLoaded := true, dataLoaded := true, nf := 35 } := by
+  obtain ⟨hL, dL, ip, lp, nf, cols⟩ := s
+  simp only at hl h35 hlen
+  subst hl
+  unfold St.toDict EpwDict.fromDict
+  simp only [Option.getD_some, List.length_map, h35, ne_eq, not_true_eq_false, or_self, if_false]
+  have h1 : ((cols.zip (cols.map fun _ => b)).any fun p => p.1.length != hoursInYear p.2) = false := by
+    rw [List.any_eq_false]
+    intro p hp
+    have hm := List.of_mem_zip hp
+    have h2 : p.2 = b := by
+      have := hm.2
+      simp only [List.mem_map] at this
+      obtain ⟨_, _, rfl⟩ := this
+      rfl
+    simp [h2, hlen p.1 hm.1]
+  have h2 : ((cols.map fun _ => b).any (· != b)) = false := by
+    rw [List.any_eq_false]
+    intro x hx
+    simp only [List.mem_map] at hx
+    obtain ⟨_, _, rfl⟩ := hx
+    simp
+  simp [h1, h2]
+
+/-- An EPW read from a file with fewer than 35 columns cannot be rebuilt from its own dictionary:
+    `from_dict` asserts 35 collections (model of the code as it is; compared by the history op `D`). -/
+theorem C01_dict_fewer_fields {Val : Type} (s : St Val) (h : s.cols.length ≠ 35) :
+    s.toDict.fromDict = .error .assert := by
+  unfold St.toDict EpwDict.fromDict
+  simp [h]
 
 /-! ### Hour convention -/
 
@@ -356,13 +638,70 @@ theorem C01_mos_time (leap : Bool) (i : Nat) (hi : i < hoursInYear leap) :
   obtain ⟨d, hd, _, hmoy, _⟩ := Cal.C08_fromMoy_moy leap _ hm
   exact ⟨d, hd, by rw [hmoy]; unfold mosTime; omega⟩
 
-/-- The stamps `from_missing_values` writes (as repaired) are the EPW stamps of the rows: after the
-    write rotation row `r` carries month/day of day `r / 24 + 1` and hour `r % 24 + 1`.  A test by
-    evaluation in the kernel on the first 100 rows, the rows of 27 Feb – 2 Mar and the last 30 rows of
-    both years, not a general theorem (the correspondence op `stamps` compares every row). -/
-theorem C01_missing_stamps_sampled :
-    ∀ leap : Bool, ((List.range 100 ++ (List.range 120).map (· + 1370) ++
-      (List.range 30).map (· + (hoursInYear leap - 30))).all (missingStampOk leap)) = true := by
-  decide +kernel
+/-- Collection index `i` of an annual hourly collection: its date-time has hour `i % 24`, and its month
+    and day are those of day-of-year `i / 24 + 1` (in the sense of `Date.from_doy`). -/
+theorem datetimeOfIndex_spec (leap : Bool) (i : Nat) (hi : i < hoursInYear leap) :
+    ∃ d, datetimeOfIndex leap i = .ok d ∧ d.hour = i % 24 ∧
+      Cal.fromDoy leap ((i / 24 + 1 : Nat) : Int) = .ok ⟨d.month, d.day, leap⟩ := by
+  have hN : hoursInYear leap = 24 * Cal.daysInYear leap := rfl
+  have hM : Cal.minutesInYear leap = 1440 * Cal.daysInYear leap := rfl
+  have hm : 60 * i < Cal.minutesInYear leap := by omega
+  obtain ⟨d, hd, hv, hmoy, hmin, hhour, hdoy, hleap⟩ := Cal.C08_fromMoy_moy leap _ hm
+  refine ⟨d, hd, by rw [hhour]; omega, ?_⟩
+  have hv' : (⟨d.month, d.day, d.leap⟩ : Cal.D).valid := ⟨hv.1, hv.2.1, hv.2.2.1, hv.2.2.2.1⟩
+  have h1 : Cal.fromDoy d.leap ((d.doy : Nat) : Int) = .ok ⟨d.month, d.day, d.leap⟩ :=
+    Cal.C08_doy_fromDoy ⟨d.month, d.day, d.leap⟩ hv'
+  have hq : 60 * i / 1440 = i / 24 := by omega
+  rw [hdoy, hq, hleap] at h1
+  exact h1
+
+/-- **The stamps `from_missing_values` writes are the EPW stamps of the rows, for every row of both
+    years.**  After the write rotation, file row `r` holds the stamp cells of collection index
+    `(r + 1) % N`; they are month and day of day-of-year `r / 24 + 1` and hour `r % 24 + 1` (1..24), the last
+    row being 12/31 hour 24 (modelled as repaired by 3c84251). -/
+theorem C01_missing_stamps (leap : Bool) (r : Nat) (hr : r < hoursInYear leap) :
+    ∃ dt, Cal.fromDoy leap ((r / 24 + 1 : Nat) : Int) = .ok dt ∧
+      missingStamp leap ((r + 1) % hoursInYear leap) = .ok (dt.month, dt.day, r % 24 + 1) := by
+  have hN : hoursInYear leap = 24 * Cal.daysInYear leap := rfl
+  have hpos : 0 < Cal.daysInYear leap := by cases leap <;> decide
+  by_cases hlast : r + 1 = hoursInYear leap
+  · -- the last row: index 0
+    rw [hlast, Nat.mod_self]
+    have hday : r / 24 + 1 = Cal.daysInYear leap := by omega
+    have hh : r % 24 + 1 = 24 := by omega
+    rw [hday, hh]
+    cases leap
+    · exact ⟨⟨12, 31, false⟩, by decide +kernel, by decide +kernel⟩
+    · exact ⟨⟨12, 31, true⟩, by decide +kernel, by decide +kernel⟩
+  · have h1 : (r + 1) % hoursInYear leap = r + 1 := Nat.mod_eq_of_lt (by omega)
+    rw [h1]
+    obtain ⟨d, hd, hhour, hdoy⟩ := datetimeOfIndex_spec leap (r + 1) (by omega)
+    unfold missingStamp
+    rw [hd]
+    by_cases h23 : r % 24 = 23
+    · -- hour 24 of the day: the collection holds 0:00 of the next day, the stamp is the previous day's
+      have hz : d.hour = 0 := by rw [hhour]; omega
+      obtain ⟨p, hp, _, hpdoy⟩ := datetimeOfIndex_spec leap (r + 1 - 24) (by omega)
+      have hq : (r + 1 - 24) / 24 + 1 = r / 24 + 1 := by omega
+      rw [hq] at hpdoy
+      refine ⟨⟨p.month, p.day, leap⟩, hpdoy, ?_⟩
+      simp only [hz, ne_eq, not_true_eq_false, if_false]
+      have : r + 1 ≠ 0 := by omega
+      simp only [this, if_false, hp]
+      have : r % 24 + 1 = 24 := by omega
+      rw [this]
+    · have hnz : d.hour ≠ 0 := by rw [hhour]; omega
+      have hq : (r + 1) / 24 + 1 = r / 24 + 1 := by omega
+      rw [hq] at hdoy
+      refine ⟨⟨d.month, d.day, leap⟩, hdoy, ?_⟩
+      simp only [hnz, ne_eq, not_false_eq_true, if_true]
+      have : d.hour = r % 24 + 1 := by rw [hhour]; omega
+      rw [this]
+
+/-- Non-vacuity: the first row, hour 24 of 1 Jan, 29 Feb hour 24 and the last row of a leap year. -/
+example : ∀ r ∈ [0, 23, 1439, 8783], ∃ dt, Cal.fromDoy true ((r / 24 + 1 : Nat) : Int) = .ok dt ∧
+    missingStamp true ((r + 1) % hoursInYear true) = .ok (dt.month, dt.day, r % 24 + 1) := by
+  intro r hr
+  exact C01_missing_stamps true r (by simp at hr; rcases hr with rfl | rfl | rfl | rfl <;> decide)
 
 end Epw
